@@ -70,6 +70,8 @@ var props = map[string]propCfg{
 }
 
 func init() {
+	props["C08"] = propCfg{Engine: "pipesim", Level: "exploration", QuickRandom: 30000, QuickWall: 25, ThoroughRand: 3000000, ThoroughWall: 480,
+		Rule: "one case = one simulated run of pipe.New with 1-3 sender tasks and 1-2 receiver tasks. Enumerated: capacity {0,1,2,5} x 0..4 values (thorough 0..6) x 6 base schedules x 6 shapes (cancel at quiescence, sender close, receiver never receives, cancel swept over every step with an eager and with a late receiver, bursts that drain the queue to empty and refill it); then seeded random plans (capacity up to 16, several senders/receivers, paces, cancel by step/virtual time, sender close, abandonment, pool eviction). Oracles: online FIFO/no-duplicate/nothing-invented, porcupine linearizability of the Send/Recv history against a sequential FIFO queue (histories <= 24 operations, 0.5 s budget each; a timed-out check is counted as inconclusive in probes, never reported), completeness after cancel and after sender close, senders never blocked. " + distinctRule}
 	props["C07"] = propCfg{Engine: "pipesim", Level: "fault_enumeration", QuickRandom: 30000, QuickWall: 25, ThoroughRand: 3000000, ThoroughWall: 420,
 		Rule: "one case = one simulated run. Fault = the user function returning an error. Enumerated (complete for that sub-space): {Map,FMap}x{Lift,Try}, Emit x {Lift,Try}, Unfold x Lift, every subset of failing positions for n = 0..4 (thorough 0..6), capacity {0,1,2}, 4 base schedules, 3 consumer orders (concurrent, values first, errors first); then seeded random plans (n <= 6, thorough <= 40; first/last/all/sparse/dense failure patterns; StdErr as the error reader; paces; all policies). " + distinctRule}
 }
